@@ -38,6 +38,7 @@ func (d *decisionRegion) atomIndex(a atom) (idx int, pol bool) {
 // collect discovers the atoms of all branches reachable before classification.
 func (d *decisionRegion) collect() {
 	seen := map[*ssa.BasicBlock]bool{}
+	inHelper := map[*ssa.Function]bool{}
 	var walk func(p ipos)
 	walk = func(p ipos) {
 		if p.i == 0 {
@@ -52,6 +53,17 @@ func (d *decisionRegion) collect() {
 				return
 			}
 			if iff, ok := in.(*ssa.If); ok {
+				if h := boolHelper(iff.Cond); h != nil {
+					// the condition is computed by a private helper: its branches belong to the region
+					if !inHelper[h] {
+						inHelper[h] = true
+						walk(entryPos(h))
+					}
+					continue
+				}
+				if _, isPhi := stripNot(iff.Cond).(*ssa.Phi); isPhi {
+					continue // short-circuit value: its operands were branched on before
+				}
 				a, _, ok := atomOf(iff.Cond, true, d.sym)
 				if !ok {
 					// boolean condition (field / call): use an equality-style pseudo atom
@@ -62,12 +74,140 @@ func (d *decisionRegion) collect() {
 				}
 				d.atomIndex(a)
 			}
+			if ret, ok := in.(*ssa.Return); ok && len(ret.Results) == 1 {
+				// a helper returning a comparison: its atom belongs to the region
+				for _, leaf := range phiLeaves(ret.Results[0]) {
+					if _, isC := leaf.(*ssa.Const); isC {
+						continue
+					}
+					if a, _, ok := atomOf(leaf, true, d.sym); ok && a.Form.OK {
+						d.atomIndex(a)
+					}
+				}
+			}
 		}
 		for _, s := range p.b.Succs {
 			walk(ipos{s, 0})
 		}
 	}
 	walk(d.start)
+}
+
+func stripNot(v ssa.Value) ssa.Value {
+	for {
+		u, ok := v.(*ssa.UnOp)
+		if ok && u.Op.String() == "!" {
+			v = u.X
+			continue
+		}
+		return v
+	}
+}
+
+// boolHelper: cond (through negations) is the result of a private helper returning one bool.
+func boolHelper(cond ssa.Value) *ssa.Function {
+	call, ok := stripNot(cond).(*ssa.Call)
+	if !ok {
+		return nil
+	}
+	h := helperCallee(call)
+	if h == nil || h.Signature.Results().Len() != 1 || h.Signature.Results().At(0).Type().String() != "bool" {
+		return nil
+	}
+	return h
+}
+
+// condValue evaluates a branch condition under an assignment of the atoms; phis are resolved with the
+// edges taken so far (phiVal), helper calls by walking the helper.
+func (d *decisionRegion) condValue(cond ssa.Value, assign []bool, phiVal map[*ssa.Phi]ssa.Value, depth int) (bool, bool) {
+	neg := false
+	for i := 0; i < 16; i++ {
+		if u, ok := cond.(*ssa.UnOp); ok && u.Op.String() == "!" {
+			cond, neg = u.X, !neg
+			continue
+		}
+		if ph, ok := cond.(*ssa.Phi); ok {
+			if v, ok := phiVal[ph]; ok {
+				cond = v
+				continue
+			}
+		}
+		break
+	}
+	if c, ok := cond.(*ssa.Const); ok && c.Value != nil {
+		return (c.Value.String() == "true") != neg, true
+	}
+	if h := boolHelper(cond); h != nil && depth < 4 {
+		v, ok := d.evalHelper(h, assign, depth+1)
+		return v != neg, ok
+	}
+	a, pol, ok := atomOf(cond, true, d.sym)
+	if !ok {
+		a = atom{Form: linSym("bool:" + boolName(cond)), Eq: true}
+		pol = true
+		if strings.HasPrefix(boolName(cond), "!") {
+			a = atom{Form: linSym("bool:" + boolName(cond)[1:]), Eq: true}
+			pol = false
+		}
+	}
+	idx, p2 := d.atomIndex(a)
+	if idx >= len(assign) {
+		return false, false
+	}
+	val := assign[idx]
+	if !p2 {
+		val = !val
+	}
+	if !pol {
+		val = !val
+	}
+	return val != neg, true
+}
+
+// evalHelper walks a boolean helper under the assignment and returns its result.
+func (d *decisionRegion) evalHelper(h *ssa.Function, assign []bool, depth int) (bool, bool) {
+	phiVal := map[*ssa.Phi]ssa.Value{}
+	b := h.Blocks[0]
+	var prev *ssa.BasicBlock
+	for steps := 0; steps < 200; steps++ {
+		for _, in := range b.Instrs {
+			if ph, ok := in.(*ssa.Phi); ok && prev != nil {
+				for k, pr := range b.Preds {
+					if pr == prev {
+						phiVal[ph] = ph.Edges[k]
+					}
+				}
+			}
+		}
+		var next *ssa.BasicBlock
+		for _, in := range b.Instrs {
+			switch x := in.(type) {
+			case *ssa.Return:
+				if len(x.Results) != 1 {
+					return false, false
+				}
+				return d.condValue(x.Results[0], assign, phiVal, depth)
+			case *ssa.If:
+				v, ok := d.condValue(x.Cond, assign, phiVal, depth)
+				if !ok {
+					return false, false
+				}
+				if v {
+					next = b.Succs[0]
+				} else {
+					next = b.Succs[1]
+				}
+			}
+		}
+		if next == nil {
+			if len(b.Succs) != 1 {
+				return false, false
+			}
+			next = b.Succs[0]
+		}
+		prev, b = b, next
+	}
+	return false, false
 }
 
 func boolName(v ssa.Value) string {
@@ -94,11 +234,24 @@ func boolName(v ssa.Value) string {
 // eval follows one assignment; returns the class reached ("" + problem on loops).
 func (d *decisionRegion) eval(assign []bool) string {
 	p := d.start
+	phiVal := map[*ssa.Phi]ssa.Value{}
+	var prev *ssa.BasicBlock
 	steps := 0
 	for {
 		steps++
 		if steps > 200 {
 			return "?loop"
+		}
+		if p.i == 0 && prev != nil {
+			for _, in := range p.b.Instrs {
+				if ph, ok := in.(*ssa.Phi); ok {
+					for k, pr := range p.b.Preds {
+						if pr == prev {
+							phiVal[ph] = ph.Edges[k]
+						}
+					}
+				}
+			}
 		}
 		var next *ssa.BasicBlock
 		for i := p.i; i < len(p.b.Instrs); i++ {
@@ -107,22 +260,9 @@ func (d *decisionRegion) eval(assign []bool) string {
 				return c
 			}
 			if iff, ok := in.(*ssa.If); ok {
-				a, pol, ok := atomOf(iff.Cond, true, d.sym)
+				val, ok := d.condValue(iff.Cond, assign, phiVal, 0)
 				if !ok {
-					a = atom{Form: linSym("bool:" + boolName(iff.Cond)), Eq: true}
-					pol = true
-					if strings.HasPrefix(boolName(iff.Cond), "!") {
-						a = atom{Form: linSym("bool:" + boolName(iff.Cond)[1:]), Eq: true}
-						pol = false
-					}
-				}
-				idx, p2 := d.atomIndex(a)
-				val := assign[idx]
-				if !p2 {
-					val = !val
-				}
-				if !pol {
-					val = !val
+					return "?cond"
 				}
 				if val {
 					next = p.b.Succs[0]
@@ -138,6 +278,7 @@ func (d *decisionRegion) eval(assign []bool) string {
 				return "?end"
 			}
 		}
+		prev = p.b
 		p = ipos{next, 0}
 	}
 }
@@ -146,6 +287,7 @@ func (d *decisionRegion) eval(assign []bool) string {
 // counterexample description or "".
 func (d *decisionRegion) compareWithSpec(spec func(val func(a atom) bool) string) string {
 	d.collect()
+restart:
 	n := len(d.Atoms)
 	if n > 12 {
 		return fmt.Sprintf("too many distinct branch atoms (%d)", n)
@@ -156,8 +298,14 @@ func (d *decisionRegion) compareWithSpec(spec func(val func(a atom) bool) string
 			assign[i] = m&(1<<i) != 0
 		}
 		got := d.eval(assign)
+		if len(d.Atoms) > n {
+			goto restart // a condition met only while walking brought a new atom: enumerate again over all of them
+		}
 		want := spec(func(a atom) bool {
 			for i, x := range d.Atoms {
+				if i >= len(assign) {
+					break
+				}
 				if x.Eq == a.Eq && x.Form.eq(a.Form) {
 					return assign[i]
 				}
@@ -170,7 +318,9 @@ func (d *decisionRegion) compareWithSpec(spec func(val func(a atom) bool) string
 		if got != want {
 			var parts []string
 			for i, x := range d.Atoms {
-				parts = append(parts, fmt.Sprintf("[%s]=%v", x, assign[i]))
+				if i < len(assign) {
+					parts = append(parts, fmt.Sprintf("[%s]=%v", x, assign[i]))
+				}
 			}
 			return fmt.Sprintf("with %s the code goes to %q but the rule requires %q", strings.Join(parts, " "), got, want)
 		}
